@@ -14,7 +14,8 @@ EXPLANATION = (
     "statement); C03.4 returns = advantages + V and the tree_at write-back is field-aligned; C03.5 unconditional "
     "dependence sets; C03.6 argument/parameter alignment at the post_collect call site (gamma/lambda not swapped, "
     "bootstrap value = V(obs(final env state))); C03.7 placement: the estimator is only reachable through "
-    "post_collect <- collect_rollout, and collect_rollout is the function under filter_vmap in iteration."
+    "post_collect <- collect_rollout, and collect_rollout is the function under filter_vmap in iteration; C03.8 composed with the "
+    "collector: the dones / values fields the estimator reads are written as terminal|truncate and the policy's value of that step."
 )
 ASSUMPTIONS = [
     "lax.scan(reverse=True) semantics and floating-point evaluation are trusted",
@@ -220,5 +221,16 @@ def check(s):
                      necessary_for="with several parallel environments each environment's stream is estimated on its own")
     if n_multi == 0:
         raise AnalysisError(f"{con8}: no multi-environment case found")
-    for r, n in (("C03.1", 3), ("C03.2", 2), ("C03.3", 1), ("C03.4", 2), ("C03.5", 2), ("C03.6", 4), ("C03.7", 5)):
+    # ---------------------------------------------------------------- C03.8 producer ∘ estimator
+    # The estimator cuts at `dones` and reads `values`; the statement's done_t / V_t are the episode ends and the policy's values of
+    # the collected stream, so the collector must write exactly those into the fields the estimator reads.
+    from .stepref import on_policy_rows
+    for o in on_policy_rows(s):
+        s.eq("C03.8", o["con"], o["nz"], o["row"].get("dones", NONE), o["ref"]["done"],
+             "the `dones` flag the estimator cuts at is terminal(successor) | truncate(successor) of that very step", o["loc"], key="estimator-dones-source",
+             necessary_for="nothing recorded after an episode end (terminal or truncated) influences the estimates before it")
+        s.eq("C03.8", o["con"], o["nz"], o["row"].get("values", NONE), o["ref"]["value"],
+             "the `values` the estimator reads are the policy's value for the observation acted on at that step", o["loc"], key="estimator-values-source",
+             necessary_for="delta_t = r_t + gamma*(1-done_t)*V_{t+1} - V_t with V_t the value of step t's observation")
+    for r, n in (("C03.1", 3), ("C03.2", 2), ("C03.3", 1), ("C03.4", 2), ("C03.5", 2), ("C03.6", 4), ("C03.7", 5), ("C03.8", 4)):
         s.floor(r, n)
